@@ -41,8 +41,17 @@ def scanner():
     return _md
 
 
+def runny(lo, hi):
+    """payloads with a long low-variety head (one byte or a short pattern repeated) followed by a varied tail, and the
+    mirror image: acceptance rules that look at only part of the text are exposed by these"""
+    head = st.tuples(st.binary(min_size=1, max_size=3), st.integers(0, 40)).map(lambda t: (t[0] * 200)[: t[1] * 3])
+    tail = st.binary(min_size=0, max_size=24)
+    return st.tuples(head, tail, st.booleans()).map(lambda t: ((t[0] + t[1]) if t[2] else (t[1] + t[0]))[: max(hi, 144)]).filter(lambda p: len(p) >= lo)
+
+
 def payloads(lo=0, hi=64):
-    return st.one_of(st.binary(min_size=lo, max_size=hi), st.binary(min_size=lo, max_size=hi), st.lists(st.sampled_from(list(b"abcdefghij klmnopqrstuvwxyz0123456789./:")), min_size=lo, max_size=hi).map(bytes))
+    return st.one_of(
+        runny(lo, hi),st.binary(min_size=lo, max_size=hi), st.binary(min_size=lo, max_size=hi), st.lists(st.sampled_from(list(b"abcdefghij klmnopqrstuvwxyz0123456789./:")), min_size=lo, max_size=hi).map(bytes))
 
 
 PRE = [b"", b"lorem ", b"lorem ipsum; ", b"x = ", b"quux\t"]
